@@ -15,6 +15,7 @@ import IoosQc.Props.C07
 import IoosQc.Props.C18
 import IoosQc.Model.FxParse
 import IoosQc.Model.Creator
+import IoosQc.Model.CallRun
 
 open Lean IoosQc IoosQc.Wire
 
@@ -278,6 +279,19 @@ def handleCfSafe (j : Json) : D Json := do
   let names ← field j "names" >>= asList asStr
   pure (Json.mkObj [("safe", Json.arr (names.map fun n => Json.str (String.ofList (cfSafeName n.toList))).toArray)])
 
+/-- kind = "callrun": the keyword arguments `Call.run` hands to the test function. -/
+def handleCallRun (j : Json) : D Json := do
+  let kw (k : String) : D KwArgs := do
+    let a ← field j k >>= asList (fun e => match e with
+      | .arr #[n, v] => do pure ((← n.getStr?), (← v.getNat?))
+      | _ => throw "pair expected")
+    pure a
+  let cfg ← kw "configured"
+  let passed ← kw "passed"
+  let sig ← field j "sig" >>= asList asStr
+  let r := callKwargs cfg passed sig
+  pure (Json.mkObj [("kwargs", Json.arr (r.map fun kv => Json.arr #[Json.str kv.1, toJson kv.2]).toArray)])
+
 partial def toJ (j : Json) : J :=
   match j with
   | .null => .null
@@ -441,6 +455,7 @@ def dispatch (kind : String) (j : Json) : D Json :=
   | "c06" => handleC06 j
   | "c19" => handleC19 j
   | "cfsafe" => handleCfSafe j
+  | "callrun" => handleCallRun j
   | "c07" => handleC07 j
   | "c18" => handleC18 j
   | k => throw s!"unknown kind {k}"
